@@ -643,7 +643,7 @@ impl HttpsSession {
         let mut frontend = match alpn {
             AlpnProtocol::Http11 => {
                 incr!(names::http::ALPN_HTTP11);
-                context.create_stream(handshake.request_id, 1 << 16)?;
+                context.create_stream(handshake.request_id, (1 << 16) - 1)?;
                 mux::Connection::new_h1_server(
                     session_ulid,
                     front_stream,
